@@ -785,6 +785,67 @@ def Session.step (s : Session) : StirOp → Session
 
 def Session.run (s : Session) (ops : List StirOp) : Session := ops.foldl Session.step s
 
+/-! ## 8. order after histories: pooled Scalars and FractionScalars that were read, shown, converted, compared
+and copied before `<`, `<=`, `>`, `>=` are asked
+
+`Scalar.__lt__ … __ge__` and their FractionScalar twins read `self._value`, `self._quantity` and
+`other.GetValue(self.unit)`; `Quantity.ConvertScalarValue` builds numbers, `ConvertFractionValue` works on
+`copy.copy(fraction)`; `float()`, `str()`, `repr()`, `GetFormatted()`, `GetValue(unit)` build new objects.  None
+of them stores anything in an operand (in the code as it is neither `Fraction`, `FractionValue`, `Scalar` nor
+`FractionScalar` keeps a memo; `hash` memoises `Quantity._hash`, section 7, which no order operator reads), so the
+state of a session is its pool; the only operation that changes the pool
+is a copy (`copy.copy`, `copy.deepcopy`, `CreateCopy()`, a pickle round trip), which appends an operand with
+the descriptor of its original. -/
+
+structure OSession where
+  pool : List Operand
+deriving DecidableEq, Repr
+
+/-- what is done with pooled operands before an order operator is asked -/
+inductive OStirOp
+  /-- `float(o.value)`, `float(o.GetValue())`, `o.GetAbstractValue()` -/
+  | float (i : Nat)
+  /-- `str(o)`, `repr(o)`, `o.GetFormatted()` -/
+  | show (i : Nat)
+  /-- `o.GetValue(unit)` / `float()` of it, `o.CreateCopy(unit=unit)` (the result is dropped) -/
+  | getValue (i : Nat) (u : Sym)
+  /-- `o_i op o_j` (any verdict, any error) -/
+  | order (op : Op) (i j : Nat)
+  /-- `o_i == o_j`, `o_i != o_j` -/
+  | eq (i j : Nat)
+  /-- `hash(o)` -/
+  | hash (i : Nat)
+  /-- `o_i + o_j`, `-`, `*`, `/` (succeeding or raising; the result is dropped) -/
+  | arith (i j : Nat)
+  /-- `copy.copy(o)`, `copy.deepcopy(o)`, `o.CreateCopy()`, `pickle.loads(pickle.dumps(o))`: a new pooled object -/
+  | copy (i : Nat)
+deriving DecidableEq, Repr
+
+def OSession.step (s : OSession) : OStirOp → OSession
+  | .copy i =>
+    match s.pool[i]? with
+    | some o => ⟨s.pool ++ [o]⟩
+    | none => s
+  | _ => s
+
+def OSession.run (s : OSession) (ops : List OStirOp) : OSession := ops.foldl OSession.step s
+
+/-- `pool[i] op pool[j]` -/
+def OSession.order (s : OSession) (db : Db) (small : Rat) (op : Op) (i j : Nat) : Except ErrKind Bool :=
+  match s.pool[i]?, s.pool[j]? with
+  | some a, some b => a.order db small op b
+  | _, _ => .error .index
+
+/-- `float(pool[i].GetValue(unit))` -/
+def OSession.valueIn (s : OSession) (db : Db) (small : Rat) (i : Nat) (u : Sym) : Except ErrKind Rat :=
+  match s.pool[i]? with
+  | some a => a.valueIn db small u
+  | none => .error .index
+
+/-- a Scalar / FractionScalar with a table unit as an operand -/
+def Sc.toOperand (a : Sc) : Operand := .sc a.v (.simple a.q)
+def FSc.toOperand (a : FSc) : Operand := .fsc a.v (.simple a.q)
+
 /-- `AbstractValueWithQuantityObject.__hash__(o)` called explicitly (what `super().__hash__()` of a
 subclass reaches): a plain function, it raises `NotImplementedError` whatever `o` is.  `hash(o)` itself
 never gets there for the nine classes (`Cls.hashSlot` is never `.raises`: Scalar defines `__hash__`,
